@@ -45,6 +45,39 @@ def atom_parser(ctx):
     return ctx.cache[key]
 
 
+def symbol_table(ctx, kind):
+    """the folded branch / ring symbol table of the decoder, by role: the module-level dict that process_<kind>_symbol (a
+    public name of grammar_rules) looks its argument up in -- whatever the table is called"""
+    key = ("symbol_table", kind)
+    if key not in ctx.cache:
+        f = ctx.fn(GR + ".process_%s_symbol" % kind)
+        names = []
+        for n in own_nodes(f.node):
+            nm = None
+            if isinstance(n, ast.Subscript) and isinstance(n.value, ast.Name) and isinstance(n.ctx, ast.Load):
+                nm = n.value.id
+            elif isinstance(n, ast.Call) and isinstance(n.func, ast.Attribute) and n.func.attr == "get" and isinstance(n.func.value, ast.Name):
+                nm = n.func.value.id
+            elif isinstance(n, ast.Compare) and len(n.ops) == 1 and isinstance(n.ops[0], (ast.In, ast.NotIn)) and isinstance(n.comparators[0], ast.Name):
+                nm = n.comparators[0].id
+            if nm is not None and nm not in f.locals and nm not in names:
+                names.append(nm)
+        tabs = []
+        for nm in names:
+            r = ctx.db.resolve_global(f.module, nm)
+            if r and r[0] == "global":
+                try:
+                    v = ctx.fold.global_value(r[1], r[2])
+                except Exception:
+                    continue
+                if isinstance(v, dict) and v:
+                    tabs.append(v)
+        if len(tabs) != 1:
+            raise AnalysisError("the symbol table read by process_%s_symbol was not identified (%d candidate(s))" % (kind, len(tabs)))
+        ctx.cache[key] = tabs[0]
+    return ctx.cache[key]
+
+
 def atom_pattern_name(ctx):
     """(module name, global name) of the compiled pattern the atom-symbol reader matches"""
     f = atom_parser(ctx)
@@ -291,7 +324,7 @@ def stereo_domain(ctx):
             v = fo.call_function(f, [c], {})
             if isinstance(v, tuple) and len(v) == 2 and v[1] is not None:
                 vals.add(v[1])
-        for e in fo.global_value(GR, "_PROCESS_RING_CACHE").values():
+        for e in symbol_table(ctx, "ring").values():
             for m in e[2]:
                 if m is not None:
                     vals.add(m)
